@@ -17,11 +17,13 @@ import (
 )
 
 func init() {
-	h.Register(&h.Prop{ID: "C15", Gen: genC15, Exec: withCells(map[string]h.ExecFn{
+	h.Register(&h.Prop{ID: "C15", Gen: genC15, Exec: withSeed(withCells(map[string]h.ExecFn{
 		"w.addr":            exWAddr,
 		"w.gwa":             exWGwa,
 		"w.gsi":             exWGsi,
 		"w.send":            exWSend,
+		"w.sendc":           exWSend,
+		"go.send.cancel":    goSendCancel,
 		"w.ctx":             exWCtx,
 		"go.addr.apis":      goAddrApis,
 		"go.addr.distinct":  goAddrDistinct,
@@ -29,7 +31,14 @@ func init() {
 		"go.codes.distinct": goCodesDistinct,
 		"go.send.prop":      goSendProp,
 		"go.send.hist":      goSendHist,
-	})})
+	}))})
+}
+
+func withSeed(m map[string]h.ExecFn) map[string]h.ExecFn {
+	for k, v := range seedExecs() {
+		m[k] = v
+	}
+	return m
 }
 
 // w.addr <ver> <seed> <pk> <wc|_> <sub|_> <net|_> <code>
@@ -108,7 +117,14 @@ func simpleMsgs(n int) []wallet.Sendable {
 // <sendErr> <nMsgs> <waitMs> <polls>  against the real SendV2 with a scripted blockchain.
 func runSend(a []string) *sendRun {
 	r := &sendRun{ver: wallet.Version(atoi(a[0]))}
-	r.chain = &scriptedChain{state: acctState(a[7]), acctErr: a[8] == "1", sendErr: a[9] == "1", polls: parsePolls(a[12])}
+	r.chain = &scriptedChain{state: acctState(a[7]), acctErr: a[8] == "1", sendErr: a[9] == "1", polls: parsePolls(a[12]), cancelAt: -1}
+	ctx := context.Background()
+	if len(a) > 13 && a[13] != "_" {
+		var cancel func()
+		ctx, cancel = context.WithCancel(ctx)
+		defer cancel()
+		r.chain.cancelAt, r.chain.cancel = atoi(a[13]), cancel
+	}
 	w, err := wallet.New(keyFromSeed(a[1]), r.ver, r.chain, walletOpts(a[3], a[4], a[5])...)
 	if err != nil {
 		panic("wallet.New failed: " + err.Error())
@@ -123,7 +139,7 @@ func runSend(a []string) *sendRun {
 			}
 		}()
 		t := time.Now()
-		r.hash, r.err = w.SendV2(context.Background(), r.wait, msgs...)
+		r.hash, r.err = w.SendV2(ctx, r.wait, msgs...)
 		r.took = time.Since(t)
 		if r.err != nil {
 			r.tag = "err"
@@ -134,8 +150,32 @@ func runSend(a []string) *sendRun {
 	return r
 }
 
+// runSendStable: the model-compared lines assume the nominal schedule (poll i at i*wait/10). When the process was
+// starved and the loop made fewer polls than the schedule has before the deadline, and one of the polls it never
+// reached would have confirmed, the run says nothing about the code: repeat it (at most 4 times).
+func runSendStable(a []string) *sendRun {
+	var r *sendRun
+	for try := 0; try < 4; try++ {
+		r = runSend(a)
+		if r.tag != "err" || r.wait == 0 || len(r.chain.sent) == 0 {
+			return r
+		}
+		used, _ := storedSeqno(r.ver, a[7])
+		stalled := false
+		for i := len(r.chain.observed); i < 10 && i < len(r.chain.polls); i++ {
+			if p := r.chain.polls[i]; !p.err && p.seqno > used {
+				stalled = true
+			}
+		}
+		if !stalled {
+			return r
+		}
+	}
+	return r
+}
+
 func exWSend(a []string) string {
-	r := runSend(a)
+	r := runSendStable(a)
 	if len(r.chain.sent) == 0 {
 		return r.tag + " sent=0"
 	}
@@ -289,7 +329,7 @@ func goCodesDistinct(a []string) string {
 
 // go.send.prop <same args as w.send>: the clauses of the property evaluated on the implementation alone.
 func goSendProp(a []string) string {
-	r := runSend(a)
+	r := runSendStable(a)
 	ver := r.ver
 	state := a[7]
 	self := r.w.GetAddress()
@@ -434,6 +474,37 @@ func storedSeqno(ver wallet.Version, state string) (uint32, bool) {
 		return 0, false
 	}
 	return uint32(v), true
+}
+
+// go.send.cancel <same args as w.send> <cancelAt>: with a blockchain implementation that honours the context, a send
+// whose context is cancelled before call k never reports success unless a poll served BEFORE the cancellation showed
+// the advance; cancelled before GetAccountState nothing is sent; the error is returned, never a panic.
+func goSendCancel(a []string) string {
+	r := runSend(a)
+	k := atoi(a[13])
+	if r.ver <= wallet.V2R2 || a[7] == "invalid" {
+		return "ok"
+	}
+	if r.tag == "panic" {
+		return "FAIL panic"
+	}
+	if k == 0 && (len(r.chain.sent) != 0 || r.tag != "err") {
+		return "FAIL cancelled-before-account-state-but-sent"
+	}
+	stored, _ := storedSeqno(r.ver, a[7])
+	confirmedBefore := false
+	for i, p := range r.chain.observed {
+		if 2+i < k && !p.err && p.seqno > stored {
+			confirmedBefore = true
+		}
+	}
+	if r.tag == "ok" && r.wait > 0 && !confirmedBefore {
+		return "FAIL success-reported-after-cancellation"
+	}
+	if k <= 1 && r.tag == "ok" {
+		return "FAIL success-although-send-was-cancelled"
+	}
+	return "ok"
 }
 
 // go.send.hist <same args as w.send>: the confirmation result agrees with the history the chain actually served,
@@ -615,6 +686,7 @@ func randDict(g *h.G, ver wallet.Version) *boc.Cell {
 func genC15(g *h.G) {
 	cx := &c15gen{g}
 	genPrim(g, "prim.sha256")
+	genSeeds(g)
 	g.Emit("go.addr.anchor")
 	g.Emit("go.codes.distinct")
 	for _, x := range addrAnchors {
@@ -799,6 +871,16 @@ func genC15(g *h.G) {
 		g.NonTrivial("send/" + vs + state + hist + fmt.Sprint(n) + acctErr + sendErr)
 		g.Emit("w.send", args...)
 		g.Emit("go.send.prop", args...)
+		if g.Rng.Intn(3) == 0 {
+			k := g.Pick(0, 1, 2, 3, 4, 6, 11, 13)
+			g.Count(fmt.Sprintf("send_cancel_at_%d", k))
+			cargs := append(append([]string{}, args...), fmt.Sprint(k))
+			// model comparison only where scheduling cannot matter: cancellation before the first poll, or no wait
+			if k <= 2 || wait == 0 {
+				g.Emit("w.sendc", cargs...)
+			}
+			g.Emit("go.send.cancel", cargs...)
+		}
 	}
 	// histories whose verdict depends on scheduling: advancing at poll 1..12 — checked against what was served
 	for i := 0; i < g.Scale(24, 240); i++ {
